@@ -105,6 +105,29 @@ Theorem C09_highest_severity_invariant :
 Proof. exact highest_severity_min. Qed.
 Print Assumptions C09_highest_severity_invariant.
 
+(* pooled objects: whatever requests an object served before (each processed and closed), the next
+   transaction on it starts from the initial state — TX.0-10 = "", HIGHEST_SEVERITY = 255, no
+   matched rules — so every per-transaction theorem above holds for the n-th transaction of a WAF *)
+Theorem C09_recycled_transaction_starts_fresh :
+  forall (s : st), st_new (st_close s) = st_init.
+Proof. exact st_new_close_init. Qed.
+Print Assumptions C09_recycled_transaction_starts_fresh.
+
+Theorem C09_nth_transaction_is_first :
+  forall (opid : Type) (op_eval : opid -> env -> st -> bytes -> bool * list (N * bytes))
+         (rs : list (rule opid)) (priors : list env) (e : env),
+  eval_nth_tx op_eval rs priors e = eval_tx op_eval e rs st_init.
+Proof. exact nth_tx_is_first. Qed.
+Print Assumptions C09_nth_transaction_is_first.
+
+Theorem C09_highest_severity_min_nth :
+  forall (opid : Type) (op_eval : opid -> env -> st -> bytes -> bool * list (N * bytes))
+         (rs : list (rule opid)) (priors : list env) (e : env),
+  rules_sev_ok opid rs = true ->
+  s_hs (eval_nth_tx op_eval rs priors e) = z_itoa (fold_min 255 (s_matched (eval_nth_tx op_eval rs priors e))).
+Proof. exact highest_severity_min_nth. Qed.
+Print Assumptions C09_highest_severity_min_nth.
+
 (* ---- setvar semantics ---- *)
 Theorem C09_setvar_delete_removes : forall k v m, tx_get (setvar_apply true k v m) k = [].
 Proof. exact setvar_delete_removes. Qed.
